@@ -4,12 +4,66 @@ import json, os, sys
 ROOT = os.path.dirname(os.path.dirname(os.path.abspath(__file__)))
 
 CHECKS = {
- "C03": dict(
-    engine="E1",
+ "C02": dict(engine="E1+E2",
+    technique="exhaustive enumeration of a resource table and index placements; generated layouts fed to the real wgpu-core Interface::check_stage; transcribed create_bind_group_layout rules; comparison with wgpu's derived layout",
+    text="Every resource kind WGSL can declare (3 buffer address spaces x 7 types, all sampled/multisampled/depth texture types, 41 storage formats x 4 accesses x 4 dimensions, 16 texture/sampler pairings) used by every legal stage set, plus sparse index placements and two-resource programs, is generated for real; the layouts read from the output are handed to wgpu-core's own check_stage as Provided layouts for every entry point, checked against the transcribed create_bind_group_layout entry rules, and compared with the layout wgpu derives itself. The space is finite and fully enumerated.",
+    note="Trusted: naga front end/validator, wgpu-core 24.0.5 validation code (run for real), my transcription of Device::create_bind_group_layout (cited in wgpucheck.rs), omodel. Most permissive device assumed.",
+    design="4 C02"),
+ "C03": dict(engine="E1",
     technique="bounded exhaustive enumeration of call graphs / placements / call and access forms; every program run through the real generator; stage sets by construction cross-checked against naga ModuleInfo",
     text="Every program of a finite grammar (entry sets x helper DAGs on <=3 helpers x entry-call subsets x 9 call forms; calls and accesses at each of 13 placement contexts and all ordered context pairs; 9 resource kinds x access forms; chains of mixed statement/value calls) is generated for real and the emitted visibility of every binding is compared with the stage set known by construction. Exhaustive within the bound, so any statement kind, nesting level or call form the walk skips is hit by some enumerated program.",
-    note="Trusted: naga's parser/validator (used as cross-check of the by-construction oracle), the syn-based reader of the generated text (omodel). Bounds: <=3 helpers, nesting depth 2.",
+    note="Trusted: naga's parser/validator (cross-check of the by-construction oracle), omodel. Bounds: <=3 helpers, nesting depth 2.",
     design="4 C03"),
+ "C04": dict(engine="E1+E2",
+    technique="BFS over declaration sequences (order is state); omodel on every state; execution of the generated code on a recording wgpu stand-in with tagged resources; conformance omodel vs compiled descriptors",
+    text="All declaration sequences up to the bound (1 group x every repetition-free binding sequence, 2-3 groups x all interleavings, 4..8 groups rotated/reversed, rotating resource kinds, adversarial names) are generated; field sets, entry index->field mapping, layout use, set index, set_bind_groups / BindGroups::set and pipeline layout order are read from every output, and a spread subset is compiled (against real wgpu 24.0.5 and the stand-in) and executed with a distinguishable resource per field so the slot each value reaches is observed, on compute passes, render passes and render bundle encoders.",
+    note="Trusted: rustc, the recording stand-in (kept honest by type-checking the same probe code against real wgpu), omodel (bound to the compiled program by the layout conformance count).",
+    design="4 C04"),
+ "C05": dict(engine="E1+E2",
+    technique="exhaustive enumeration of 1-/2-/3-field host-shareable structs x 3 representations; assertion literals vs WGSL layout reference (three-way with naga Layouter); each module compiled twice by rustc (as generated / checks stripped) to read real offsets",
+    text="Every struct of the space gets its emitted assertion literals compared with an independent WGSL layout reference; a subset (thorough: every 4th state) is compiled as generated and with the assertions and Pod derive stripped, so that rustc itself tells the real field offsets and size: accepted => real layout = WGSL; real != WGSL => rejected; equal and unpadded => accepted.",
+    note="Trusted: rustc, bytemuck, glam, the nalgebra stand-in (layout-faithful), WGSL layout reference (cross-checked with naga per state).",
+    design="4 C05"),
+ "C06": dict(engine="E1+E2",
+    technique="exhaustive enumeration of member types and nestings x 3 representations; structural type denotation compared with a reference; denotation resolved by rustc against the linked crates on a compiled subset",
+    text="For every struct of the space (leaf table complete, runtime arrays, bools, IO structs with builtins at every position) the emitted field name sequence and the structural denotation of each field type are compared with the WGSL member; on a compiled subset the denotation is produced by rustc's own type resolution (trait Denote implemented for primitives, arrays, Vec, glam types via to_array/to_cols_array_2d).",
+    note="Trusted: rustc, glam, nalgebra stand-in, omodel. Matrix orientation of plain arrays is not constrained (statement says element counts).",
+    design="4 C06"),
+ "C08": dict(engine="E1",
+    technique="exhaustive enumeration of struct pools, nesting DAGs and role sets; reachability reference vs emitted struct multiset",
+    text="Every program over a pool of <=4 structs (5 member shapes, full power set of roles for single structs, role pairs for IO structs, every nesting DAG for plain structs with nesting by member or by array) is generated and the multiset of emitted struct names compared with the reachability reference.",
+    note="Trusted: naga validator as universe filter, omodel.",
+    design="4 C08"),
+ "C09": dict(engine="E1+E2",
+    technique="complete enumeration of the 192 configurations x role shaders; truth table + differential non-interference on token streams; trait-implementation probes compiled by rustc",
+    text="All 192 option combinations are run on every role shader; derives, repr and assertion presence are compared with the truth table, everything outside the struct items must be token-identical across all configurations, and compiled modules are probed for the traits actually implemented.",
+    note="Trusted: rustc, rustfmt present on PATH for the formatter dimension, omodel.",
+    design="4 C09"),
+ "C10": dict(engine="E2",
+    technique="enumeration of glam-representable host-shareable structs; compiled with real encase+glam and executed; byte image compared with the WGSL layout reference",
+    text="Each compiled module builds a value with a distinct sentinel per component, writes it with the real encase StorageBuffer/UniformBuffer and the harness compares length and every component's bytes with the reference WGSL offsets, for runtime arrays with 0..3 elements too.",
+    note="Trusted: rustc, encase 0.10, glam 0.29 (real crates), WGSL layout reference. Quick compiles a spread subset; thorough the whole space.",
+    design="4 C10"),
+ "C11": dict(engine="E1",
+    technique="BFS over declaration sequences of (group,binding) pairs to depth 4/5 plus boundary indices; contract model; naga called directly for pre-emption",
+    text="All sequences of resource declarations up to the depth bound over a 3x3 / 4x3 index grid (order is part of the state), used and unused, with validation on and off, plus extreme indices, are run and the outcome compared with the contract model; on success the emitted groups, indices and names are compared with the declaration.",
+    note="Trusted: naga (parse/validate verdict called directly), omodel.",
+    design="4 C11"),
+ "C13": dict(engine="E1",
+    technique="exhaustive product of push-constant types x entry sets x using subsets x use route; WGSL size reference cross-checked with naga",
+    text="29 push-constant types x all entry sets x all using subsets x direct/helper use x group counts, plus shaders without one: the range list, its length, start and stages are read from the output and compared with the reference.",
+    note="Trusted: naga Layouter (cross-check), omodel.",
+    design="4 C13"),
+ "C17": dict(engine="E1",
+    technique="complete single-edit neighbourhood (and a double-edit neighbourhood) of a corpus of shaders x 6 validation settings; differential against naga called directly",
+    text="Every truncation, deletion, adjacent swap and 10 injects at every position, every token deletion/duplication/swap of 8 base shaders, 30 parsable-but-invalid modules, and all double edits of the smallest shader are run with validation off / all / empty / 3 capability subsets; outcome class, diagnostic text and panic-freedom are compared with naga called directly, and passing sources must give identical outcomes with validation on and off.",
+    note="Trusted: naga (the differential reference).",
+    design="4 C17"),
+ "C20": dict(engine="E5",
+    technique="deterministic step counting through the walk hooks on every call-graph tile composed in series and on amplified families; wall clock in child processes",
+    text="Every DAG tile on <=4 helpers with per-edge multiplicity/call form, repeated 8x/16x in series, every chain/diamond/fan-in/fan-out family at depths up to 64 (290 functions) with each call form at each placement context, and nested/wide type families are generated with a step budget of 8*E*(F+C+1) function visits and 8*G*(T+M+1) type visits enforced by the hook; amplified members are also timed in child processes without hooks.",
+    note="Trusted: the verif-hooks points at the top of the two recursive walks; wall clock part decides alone if they disappear.",
+    design="4 C20"),
 }
 
 PENDING = {}
